@@ -103,9 +103,13 @@ pub(crate) fn add_key_output_from_action_to_key_pos(
             add_key_output_from_action_to_key_pos(osc_slot, left, outputs, overrides);
             add_key_output_from_action_to_key_pos(osc_slot, right, outputs, overrides);
         }
-        Action::Chords(ChordsGroup { chords, .. }) => {
-            for (_, ac) in chords.iter() {
-                add_key_output_from_action_to_key_pos(osc_slot, ac, outputs, overrides);
+        Action::Chords(group) => {
+            // Only the chords that this key position takes part in.
+            let own_keys = group.get_keys((0, u16::from(osc_slot)));
+            for (chord_keys, ac) in group.chords.iter() {
+                if own_keys.map(|k| k & chord_keys != 0).unwrap_or(true) {
+                    add_key_output_from_action_to_key_pos(osc_slot, ac, outputs, overrides);
+                }
             }
         }
         Action::Switch(Switch { cases }) => {
